@@ -60,7 +60,7 @@ MUTATIONS += [
  # ---- C03 / C04 / C09 / C10
  dict(name="c03-burn-without-supply-update", props=["C03"], file="radix-engine/src/blueprints/resource/fungible/fungible_resource_manager.rs",
       find="            total_supply = total_supply\n                .checked_sub(other_bucket.liquid.amount())",
-      replace="            total_supply = total_supply\n                .checked_sub(Decimal::ZERO)", expect=["burn|same-amount"]),
+      replace="            total_supply = total_supply\n                .checked_sub(Decimal::ZERO)", expect=["decrement-is-the-dropped-amount"]),
  dict(name="c04-recall-without-event", props=["C04"], file="radix-engine/src/blueprints/resource/fungible/fungible_vault.rs",
       find="        Runtime::emit_event(api, events::fungible_vault::RecallEvent { amount })?;\n", replace="", expect=["pairing|FungibleVaultBlueprint::recall"]),
  dict(name="c09-drop-empty-bucket-always-ok", props=["C09"], file="radix-engine/src/blueprints/resource/fungible/fungible_resource_manager.rs",
